@@ -473,6 +473,18 @@ def classify(det, findings):
     return None
 
 
+def script_time_limit_ms():
+    """the run-time limit of scripts as lua_engine.rs states it (0 = none): `const SCRIPT_TIME_LIMIT: Duration = Duration::from_secs(5)` used by a count hook"""
+    try:
+        src = open(os.path.join(REPO, "src", "storage", "lua_engine.rs"), encoding="utf-8", errors="replace").read()
+    except OSError:
+        return 0
+    m = re.search(r"const\s+\w*TIME_LIMIT\w*\s*:\s*Duration\s*=\s*Duration::from_(secs|millis)\((\d+)\)", src)
+    if not m or not re.search(r"set_(global_)?hook\(", src):
+        return 0
+    return int(m.group(2)) * (1000 if m.group(1) == "secs" else 1)
+
+
 def main(tier, seed):
     rep = Report(PID, tier, seed)
     rep.rule = ("hostile sweep over the real server: every dispatched command name (except those whose purpose is to stop/pause/re-wire the server) x arity 0..4 x every argument "
@@ -481,7 +493,7 @@ def main(tier, seed):
                 "connection served, canary intact. distinct = command names and frame shape classes reached")
     rep.assumptions = [
         "LEVEL: proof for the modelled arithmetic sites only (release arithmetic: wrapping +,-,*; `as` casts; slice and capacity panics); process liveness is explored, not proved",
-        "unmodelled: allocator behaviour under memory pressure, stack cost per recursion level, Lua run time (EVAL \"while true do end\" 0 wedges the single thread: recorded finding), "
+        "unmodelled: allocator behaviour under memory pressure, stack cost per recursion level, Lua run time beyond the 5 s limit's granularity and Lua memory (recorded finding: a script can allocate without bound), "
         "lock-order deadlocks between the command thread and BGSAVE/sweeper (none found by reading)",
         "SHUTDOWN, SLEEP, DEBUG, CLIENT, CONFIG, REPLICAOF, MONITOR, SYNC are excluded from the sweep (their documented purpose is to stop, pause or re-wire the server)",
     ]
@@ -508,7 +520,77 @@ def main(tier, seed):
             new_fail.append(det)
     for fid, f in seen.items():
         rep.known(fid, f["what"])
+    # ---- scripts that do not end by themselves: each on a dedicated server whose address space is capped (so that a script
+    # that eats memory cannot take the sandbox with it); all at once
+    limit_ms = script_time_limit_ms()
+    rep.extra["script_time_limit_ms"] = limit_ms
+    AS_CAP = 3 << 30
+
+    def cap():
+        import resource
+        resource.setrlimit(resource.RLIMIT_AS, (AS_CAP, AS_CAP))
+
+    def run_script(script, wait_s):
+        """-> (outcome, seconds, fresh connection served afterwards, process alive)"""
+        s2 = Server("c06-script", preexec_fn=cap, quiet=True)
+        try:
+            a = s2.client(timeout=wait_s)
+            a.cmd("SET", "before", "1")
+            t0 = time.time()
+            try:
+                rp = a.cmd("EVAL", script, "0", timeout=wait_s)
+                out = "error-reply" if rp[0] == "e" else "reply:" + rp[0]
+            except TimeoutError:
+                out = "no-reply"
+            except (Closed, ProtocolError, OSError):
+                out = "closed"
+            dt = time.time() - t0
+            try:
+                b = s2.client(timeout=2.0)
+                served = b.cmd("GET", "before", timeout=2.0) == ("b", b"1")
+            except (Closed, TimeoutError, ProtocolError, OSError):
+                served = False
+            return out, dt, served, s2.alive()
+        finally:
+            s2.stop()
+
+    RUNAWAY = {
+        "plain-loop": "while true do end",
+        "pcall-inner": "pcall(function() while true do end end) return 1",
+        "pcall-loop": "while true do pcall(function() while true do end end) end",
+        "calls-in-loop": "while true do redis.call('INCR', 'n') end",
+        "string-work": "local s = 'x' while true do s = string.rep(s, 2):sub(1, 1000) end",
+        "coroutine": "local co = coroutine.create(function() while true do end end) coroutine.resume(co) return 1",
+        "recursion": "local function f(n) return f(n + 1) end return f(1)",
+        "deep-nonTail-recursion": "local function f(n) return 1 + f(n + 1) end return f(1)",
+        "huge-table-literal-loop": "local t = {} for i = 1, 1e12 do t[1] = i end",
+    }
+    if limit_ms > 0:
+        import concurrent.futures
+        wait_s = limit_ms / 1000.0 + 6.0
+        with concurrent.futures.ThreadPoolExecutor(max_workers=len(RUNAWAY)) as ex:
+            futs = {tag: ex.submit(run_script, sc, wait_s) for tag, sc in RUNAWAY.items()}
+            for tag, fu in futs.items():
+                out, dt, served, alive = fu.result()
+                rep.evaluations += 1
+                rep.count("runaway-script." + out)
+                rep.nontrivial(("runaway", tag, out, served, alive))
+                rep.extra.setdefault("runaway_scripts", {})[tag] = {"outcome": out, "seconds": round(dt, 2), "served_afterwards": served}
+                # the script must END (an error reply, or whatever it returns after catching the error) and the server must go on
+                if not (out == "error-reply" or out.startswith("reply:")) or not served or not alive:
+                    new_fail.append({"why": "a script that does not end by itself (%s): %s after %.1f s, fresh connection %s, process %s (script time limit %d ms)" % (
+                        tag, out, dt, "served" if served else "NOT served", "alive" if alive else "DEAD", limit_ms),
+                        "commands": [["EVAL", RUNAWAY[tag], "0"]], "name": "runaway-script", "raw": []})
     for f in findings:
+        if f.get("confirm") == "dies-under-aslimit":
+            # the witness script on a dedicated server with a capped address space: the finding stands while the process dies or wedges
+            out, dt, served, alive = run_script(f["witness"][1], 60.0)
+            rep.evaluations += 1
+            rep.extra.setdefault("capped_memory_scripts", {})[f["id"]] = {"outcome": out, "seconds": round(dt, 2), "served_afterwards": served, "alive": alive, "address_space_cap": AS_CAP}
+            if out == "error-reply" and served and alive:
+                rep.violation("known finding %s no longer reproduces: the known-findings file is stale" % f["id"], {"finding": f}, no_input=True)
+            else:
+                rep.known(f["id"], f["what"])
         if f.get("confirm") == "wedge":
             # replay the witness on a dedicated server: afterwards a fresh connection must NOT be served
             s2 = Server("c06-wedge")
